@@ -48,7 +48,7 @@ def pipeline(ctx):
             s["seed"] = seed
         return scns
     return standard_pipeline(
-        ctx, sub="urlenc",
+        ctx, checked=True, sub="urlenc",
         mc=[("MC_UrlEnc", "MC_UrlEnc.cfg" if q else "MC_UrlEnc_deep.cfg", dict(workers=8, timeout=600))],
         gen=[("UrlEncGen", "Gen_UrlEnc.cfg" if q else "Gen_UrlEnc_deep.cfg", dict(workers=2, timeout=600))],
         trace=("Trace_UrlEnc", "Trace_UrlEnc.cfg"), post_gen=post,
